@@ -447,7 +447,7 @@ fn check(h: &Hist, stats: &mut Stats) -> Result<(), String> {
 }
 
 fn run(c: &mut Ctx) {
-    let cases = c.tier.pick(40_000, 1_000_000);
+    let cases = c.tier.pick(120_000, 2_000_000);
     let r = c.proptest(cases, hist_strategy(), |c, h, counting| {
         let mut st = Stats::default();
         let r = check(h, &mut st);
